@@ -36,15 +36,40 @@ Print Assumptions C10_invariant_after_any_interleaving.
 Theorem C10_dropped_iff :
   forall s t,
     (fate_of s t = DroppedDead <-> life_of s (t_src t) = LDead) /\
-    (fate_of s t = DroppedFlag <-> life_of s (t_src t) <> LDead /\ has_flag s (t_src t) (t_flags t) = true) /\
+    (fate_of s t = DroppedOffField <-> life_of s (t_src t) <> LDead /\ on_field s (t_src t) = false) /\
+    (fate_of s t = DroppedFlag <->
+       life_of s (t_src t) <> LDead /\ on_field s (t_src t) = true /\ has_flag s (t_src t) (t_flags t) = true) /\
     (fate_of s t = ActionNotAlive <->
-       life_of s (t_src t) <> LDead /\ has_flag s (t_src t) (t_flags t) = false /\
+       life_of s (t_src t) <> LDead /\ on_field s (t_src t) = true /\ has_flag s (t_src t) (t_flags t) = false /\
        exists u, t_body t = BAction u /\ life_of s u <> LAlive) /\
     (fate_of s t = Executed <->
-       life_of s (t_src t) <> LDead /\ has_flag s (t_src t) (t_flags t) = false /\
+       life_of s (t_src t) <> LDead /\ on_field s (t_src t) = true /\ has_flag s (t_src t) (t_flags t) = false /\
        match t_body t with BAction u => life_of s u = LAlive | BAbility _ => True end).
 Proof. exact dropped_iff. Qed.
 Print Assumptions C10_dropped_iff.
+
+(* when a side has been wiped out the drain takes nothing more and ends the battle; otherwise it
+   takes the least pending task and treats it as its source's state dictates *)
+Theorem C10_drain_iteration :
+  forall s s' stopped, J s -> iter s = Some (s', stopped) ->
+    (exists r, exit_reason s = Some r /\ q_pending (s_q s) <> [] /\
+               s' = emit s [TTermination r] /\ stopped = true) \/
+    (exit_reason s = None /\
+     exists t q', pop_min (s_q s) = Some (t, q') /\
+      In t (q_pending (s_q s)) /\ (forall t', In t' (q_pending (s_q s)) -> less t' t = false) /\
+      s_log s' = s_log s ++ [mkE t (fate_of s t)] /\
+      ((fate_of s t = DroppedDead \/ fate_of s t = DroppedOffField \/ fate_of s t = DroppedFlag) ->
+         s' = record (with_q s q') (mkE t (fate_of s t)) /\ stopped = false) /\
+      (fate_of s t = ActionNotAlive ->
+         s_q s' = q' /\ s_life s' = s_life s /\ s_flags s' = s_flags s /\ s_acts s' = s_acts s) /\
+      J s').
+Proof. exact iter_spec. Qed.
+Print Assumptions C10_drain_iteration.
+
+Theorem C10_off_field_means_in_no_side_list :
+  forall s u, on_field s u = true <-> In u (s_chars s) \/ In u (s_enemies s).
+Proof. exact on_field_iff. Qed.
+Print Assumptions C10_off_field_means_in_no_side_list.
 
 Theorem C10_taken_and_executed_at_most_once :
   forall units acts fuel ops s, top_run fuel (sim_init units acts) ops = Some s ->
@@ -71,6 +96,6 @@ Print Assumptions C10_drain_never_runs_out_of_fuel.
 Theorem C10_nonvacuous : exists s,
   top_run 50 (sim_init demo_units []) demo_ops = Some s /\
   map (fun e => (t_id (e_task e), e_fate e)) (s_log s) =
-    [(1, DroppedFlag); (2, Executed); (0, Executed); (4, Executed); (3, DroppedDead)] /\
-  texecs (s_trace s) = [2; 0; 4].
+    [(4, DroppedOffField); (1, DroppedFlag); (2, Executed); (0, Executed); (5, Executed); (3, DroppedDead)] /\
+  texecs (s_trace s) = [2; 0; 5].
 Proof. exact demo_runs. Qed.
